@@ -32,7 +32,7 @@ inductive CType where
   | base (c : Bool) (b : Base)
   | ptr (c : Bool) (t : CType)
   | array (t : CType) (n : Nat)
-  | func (c : Bool) (ret : CType) (ps : Params)
+  | func (c v : Bool) (ret : CType) (ps : Params)   -- v = `is_variadic()`
   | tref (c : Bool) (t : CType)            -- `ResolvedTypeRef` (and `Alias` without a name, c = false)
   | other                                  -- every kind that reaches the `Cannot serialize type kind` arm
 /-- `FunctionSig::argument_types`: `(Option<String>, TypeId)` -/
@@ -98,8 +98,10 @@ def constP (c : Bool) : List Piece := if c then [pConst] else []
 def flush (st : List (List Piece)) : List Piece := if st.isEmpty then [] else pSp :: st.flatten
 
 def startsStar : List Piece → Bool
-  | ⟨some (.star _), _⟩ :: _ => true
-  | _ => false
+  | p :: _ => match p.tok with
+    | some (.star _) => true
+    | _ => false
+  | [] => false
 
 /-- the declarator pushed by the in-declarator form of the `Array` arm -/
 def arrDecl (d : List Piece) (n : Nat) : List Piece :=
@@ -117,7 +119,7 @@ def supported : CType → Bool
   | .base _ b => (baseText b).isSome
   | .ptr _ t => supported t
   | .array t _ => supported t
-  | .func _ r ps => supported r && supportedPs ps
+  | .func _ _ r ps => supported r && supportedPs ps
   | .tref _ t => supported t
   | .other => false
 def supportedPs : Params → Bool
@@ -133,7 +135,7 @@ def serP (a : Bool) : CType → List (List Piece) → List Piece
   | .array t n, st =>
       if a then serP a t [arrDecl st.flatten n]
       else serP a t st ++ [pArr n]
-  | .func c r ps, st =>
+  | .func c _ r ps, st =>
       serP a r [] ++ [pFnOpen] ++ ((if c then [[pFnConst]] else []) ++ st).flatten ++ [pFnClose] ++ serPs a ps
   | .tref c t, st => constP c ++ serP a t st
   | .other, _ => []
@@ -256,10 +258,17 @@ def wrapperSymbol (suffix : Name) (f : FnInfo) : Name := f.name ++ suffix
 *not* declare `den t` (the hypothesis `decl_roundtrip_partial` needs); the same function is
 implemented in `harness/src/bin/c16.rs` and compared with this one on every case. -/
 
-/-- shape of the declarator collected so far: nothing / starts with an identifier or `(` / starts with `*` -/
+/-- shape of the declarator collected so far: nothing / starts with an identifier or `(` /
+    starts with `*` / only array suffixes of an abstract declarator (`[3]`) -/
 inductive Ctx where
-  | empty | direct | ptr
+  | empty | direct | ptr | absArr
   deriving DecidableEq, Repr
+
+/-- the context after the in-declarator `Array` arm has added its suffix -/
+def Ctx.afterArr : Ctx → Ctx
+  | .empty => .absArr
+  | .absArr => .absArr
+  | _ => .direct
 
 inductive Defect where
   | arrayUnderPtr     -- `int (*p)[3]` is written `int *p [3]`
@@ -267,6 +276,7 @@ inductive Defect where
   | fnRet             -- a function (pointer) type whose return type is not pointers-to-a-leaf: `int (*(*f)(void))(int)`
   | fnNoDeclarator    -- a function type with nothing to put in `( )`: unnamed parameter `int (int)`
   | fnConst           -- const-qualified function type
+  | fnVariadic        -- `int (*g)(const char *, ...)` is written `int (*g) (const char *)`
   | constRefPtr       -- top-level const on a pointer parameter: `int *const q` is written `const int *const q`
   | unsupported       -- the serializer returns `Err`
   deriving DecidableEq, Repr
@@ -292,7 +302,7 @@ def den : CType → CType
   | .base c b => .base c b
   | .ptr c t => .ptr c (den t)
   | .array t n => .array (den t) n
-  | .func c r ps => .func c (den r) (denPs ps)
+  | .func c v r ps => .func c v (den r) (denPs ps)
   | .tref c t => if c then addConst (den t) else den t
   | .other => .other
 def denPs : Params → Params
@@ -309,13 +319,14 @@ def defect (a : Bool) : Ctx → CType → Option Defect
   | _, .base _ b => if (baseText b).isSome then none else some .unsupported
   | _, .ptr _ t => defect a .ptr t
   | ctx, .array t _ =>
-    if a then defect a .direct t
+    if a then defect a ctx.afterArr t
     else if ctx == .ptr then some .arrayUnderPtr
     else if !ptrBase t then some .arrayElem
     else defect a ctx t
-  | ctx, .func c r ps =>
+  | ctx, .func c v r ps =>
     if c then some .fnConst
-    else if ctx == .empty then some .fnNoDeclarator
+    else if v then some .fnVariadic
+    else if ctx == .empty || ctx == .absArr then some .fnNoDeclarator
     else if !ptrBase r then some .fnRet
     else match defect a .empty r with
       | some d => some d
@@ -347,7 +358,7 @@ def Decl.apply : Decl → CType → CType × Option Name
   | .nm n, t => (t, n)
   | .ptr c d, t => d.apply (.ptr c t)
   | .arr d n, t => d.apply (.array t n)
-  | .fn d ps, t => d.apply (.func false t ps)
+  | .fn d ps, t => d.apply (.func false false t ps)
   | .paren d, t => d.apply t
 
 /-- `const`* type-specifier -/
@@ -406,7 +417,7 @@ end
 
 /-- a whole parameter declaration: the type and the identifier it declares -/
 def parseDecl (ts : List Tok) : Option (CType × Option Name) :=
-  match parseParam (ts.length + 2) ts with
+  match parseParam (2 * ts.length + 2) ts with
   | some (n, t, []) => some (t, n)
   | _ => none
 
